@@ -33,7 +33,7 @@ def gen_wire_lists(r):
     lists = []
     for i, cat in enumerate(['kex', 'key', 'enc', 'enc', 'mac', 'mac', None, None, None, None]):
         if cat is None:
-            lists.append(r.choice([[b'none'], [b'none', b'zlib@openssh.com'], [b'zlib', b'none'], [b'']]) if i < 8 else [b''])
+            lists.append(r.choice([[b'none'], [b'none', b'zlib@openssh.com'], [b'zlib', b'none'], [b''], [b'zlib@openssh.com', b'zlib'], [b'zlib'], [b'zlib', b'zlib', b'none', b'none'], [b'none', b'lz4@example.org']]) if i < 8 else [b''])
             continue
         names = [n.encode() for n in pg.gen_list(r, cat)]
         if r.random() < 0.04:
@@ -214,6 +214,20 @@ def run(ctx):
                 exp = {c: [n for n in want[c] if n.strip() != ''] for c in rc.CATS}
             if len(net.connects) < 2:
                 raise RuntimeError('C01 whole-audit stage: no probe connection was made')
+            # compression methods and banner as sent (the probes hand the parsed compression list to send_kexinit as well: seed C01-7)
+            if extra:
+                gotc, expc_ = (doc.get('compression') if got is not None else None), dec[7]
+                gotb, expb = ((doc.get('banner') or {}).get('raw') if got is not None else None), 'SSH-2.0-OpenSSH_8.0'
+            else:
+                cl = [l for l in text.split('\n') if l.startswith('(gen) compression: ')]
+                ec = [x for x in dec[7] if x != 'none']
+                gotc, expc_ = cl, ['(gen) compression: ' + ('enabled (%s)' % ', '.join(ec) if ec else 'disabled')]
+                bl = [l for l in text.split('\n') if l.startswith('(gen) banner: ')]
+                gotb, expb = bl, ['(gen) banner: SSH-2.0-OpenSSH_8.0']
+            if gotc != expc_:
+                fail('whole_audit_compression_differs', inp, gotc, expc_)
+            if gotb != expb:
+                fail('whole_audit_banner_differs', inp, gotb, expb)
             if got != exp:
                 bad = [c for c in rc.CATS if got is None or got[c] != exp[c]]
                 fail('whole_audit_names_differ', inp, {c: (got or {}).get(c) for c in bad[:2]}, {c: exp[c] for c in bad[:2]})
@@ -250,7 +264,9 @@ def replay(obj):
         got = {c: [e['algorithm'] for e in doc[c]] for c in rc.CATS}
         for c in rc.CATS:
             print(c, 'advertised', want[c][:12], 'reported', got[c][:12])
-        return 1 if got != want else 0
+        print('compression advertised', dec[7], 'reported', doc.get('compression'))
+        print('banner reported', (doc.get('banner') or {}).get('raw'))
+        return 1 if (got != want or doc.get('compression') != dec[7] or (doc.get('banner') or {}).get('raw') != 'SSH-2.0-OpenSSH_8.0') else 0
     adv = pg.independent_kexinit_reader(payload)
     dec = [[n.decode('utf-8', 'replace') for n in l] for l in adv]
     want = {'kex': dec[0], 'key': dec[1], 'enc': dec[3], 'mac': dec[5]}
